@@ -50,10 +50,15 @@ NoIin == [bc |-> FALSE, c1 |-> FALSE, c2 |-> FALSE, c3 |-> FALSE, time |-> FALSE
 MkCb(t, k, n, i) == [t |-> t, k |-> k, n |-> n, i |-> i, s |-> ""]
 
 \* wire image of an event / a static value
+\* an event is written in the variation selected for it: var = 0 the point's configured default,
+\* otherwise the variation a READ named explicitly (modelled for binary inputs: g2v1 carries no time)
+EvVar(rec) == IF rec.var = 0 THEN Pts[rec.p].ev ELSE rec.var
+HasTime(p, v) == p.ty # "os" /\ ~(p.ty = "bi" /\ v = 1)
+EvSize(rec) == IF rec.var = 0 THEN Pts[rec.p].esz ELSE IF Pts[rec.p].ty = "bi" /\ rec.var = 1 THEN 3 ELSE Pts[rec.p].esz
 EvObj(rec) ==
     LET p == Pts[rec.p]
-    IN [g |-> p.eg, v |-> p.ev, ix |-> p.ix, ty |-> p.ty, ev |-> TRUE, val |-> rec.val,
-        fl |-> IF p.ty = "os" THEN -1 ELSE 1, tm |-> IF p.ty = "os" THEN "" ELSE rec.tm,
+    IN [g |-> p.eg, v |-> EvVar(rec), ix |-> p.ix, ty |-> p.ty, ev |-> TRUE, val |-> rec.val,
+        fl |-> IF p.ty = "os" THEN -1 ELSE 1, tm |-> IF HasTime(p, EvVar(rec)) THEN rec.tm ELSE "",
         tq |-> "", st |-> -1]
 StObj(pn, val) ==
     LET p == Pts[pn]
@@ -148,7 +153,7 @@ DbInsert(s, p, val, tm) ==
                               /\ PTy(s.events[i].p) = ti
                               /\ \A j \in 1..(i - 1) : PTy(s.events[j].p) # ti
                       ELSE 0
-        victim == IF victimIx > 0 THEN s.events[victimIx] ELSE [id |-> -1, p |-> p, st |-> "U"]
+        victim == IF victimIx > 0 THEN s.events[victimIx] ELSE [id |-> -1, p |-> p, st |-> "U", var |-> 0]
         evs1 == IF victimIx > 0
                   THEN [i \in 1..(Len(s.events) - 1) |->
                             IF i < victimIx THEN s.events[i] ELSE s.events[i + 1]]
@@ -159,7 +164,7 @@ DbInsert(s, p, val, tm) ==
         wr1  == IF victimIx > 0 /\ victim.st = "W" /\ "OverflowKeepsWrittenCount" \notin DEV
                   THEN [s.written EXCEPT ![PCls(victim.p)] = @ - 1] ELSE s.written
         tt1  == IF victimIx > 0 THEN [s.totalT EXCEPT ![ti] = @ - 1] ELSE s.totalT
-        rec  == [id |-> id, p |-> p, val |-> val, tm |-> tm, st |-> "U"]
+        rec  == [id |-> id, p |-> p, val |-> val, tm |-> tm, st |-> "U", var |-> 0]
     IN IF EvMax[ti] = 0 THEN [st |-> s, info |-> "noevent", id |-> -1, disc |-> -1]
        ELSE [st |-> [s EXCEPT !.events = Append(evs1, rec),
                               !.total = [tot1 EXCEPT ![c] = @ + 1],
@@ -174,11 +179,12 @@ DbInsert(s, p, val, tm) ==
              id |-> id, disc |-> victim.id]
 
 \* EventBuffer::select (limit -1 = none): marks the oldest Unselected matching events
-DbSelect(evs, match(_), limit) ==
+\* (the selecting header also fixes the variation the event will be written in: var)
+DbSelect(evs, match(_), limit, var) ==
     LET idx == SelectSeq([i \in 1..Len(evs) |-> i], LAMBDA i : evs[i].st = "U" /\ match(evs[i]))
         n   == IF limit < 0 THEN Len(idx) ELSE Min2(limit, Len(idx))
         chosen == {idx[k] : k \in 1..n}
-    IN [i \in 1..Len(evs) |-> IF i \in chosen THEN [evs[i] EXCEPT !.st = "S"] ELSE evs[i]]
+    IN [i \in 1..Len(evs) |-> IF i \in chosen THEN [evs[i] EXCEPT !.st = "S", !.var = var] ELSE evs[i]]
 
 \* EventBuffer::reset / Database::reset
 DbReset(s) ==
@@ -191,8 +197,8 @@ Underflow(s) == \E c \in 1..3 : s.written[c] > s.total[c]
 Unwritten(s, c) == s.total[c] - s.written[c] > 0
 
 \* bytes an event adds to a fragment given the previous object written (header switching)
-EvCost(prev, p) == IF prev = 0 \/ Pts[prev].eg # Pts[p].eg \/ Pts[prev].ev # Pts[p].ev
-                     THEN 5 + Pts[p].esz ELSE Pts[p].esz
+EvCost(prev, rec) == IF prev.p = 0 \/ Pts[prev.p].eg # Pts[rec.p].eg \/ EvVar(prev) # EvVar(rec)
+                       THEN 5 + EvSize(rec) ELSE EvSize(rec)
 
 \* EventBuffer::write_events: write Selected events in order while they fit
 RECURSIVE WriteEv(_, _, _, _, _)
@@ -200,16 +206,16 @@ WriteEv(evs, i, budget, prev, acc) ==
     \* acc = [evs, objs, used, complete, count]
     IF i > Len(evs) THEN [acc EXCEPT !.evs = evs]
     ELSE IF evs[i].st # "S" THEN WriteEv(evs, i + 1, budget, prev, acc)
-    ELSE LET cost == EvCost(prev, evs[i].p)
+    ELSE LET cost == EvCost(prev, evs[i])
          IN IF acc.used + cost > budget
               THEN [acc EXCEPT !.evs = evs, !.complete = FALSE]
-              ELSE WriteEv([evs EXCEPT ![i].st = "W"], i + 1, budget, evs[i].p,
+              ELSE WriteEv([evs EXCEPT ![i].st = "W"], i + 1, budget, evs[i],
                            [acc EXCEPT !.objs = Append(@, EvObj(evs[i])),
                                        !.used = @ + cost, !.count = @ + 1,
                                        !.wcls = [@ EXCEPT ![PCls(evs[i].p)] = @ + 1]])
 
 DbWriteEvents(s, budget) ==
-    LET r == WriteEv(s.events, 1, budget, 0,
+    LET r == WriteEv(s.events, 1, budget, [p |-> 0, var |-> 0],
                      [evs |-> s.events, objs |-> <<>>, used |-> 0, complete |-> TRUE, count |-> 0,
                       wcls |-> [c \in 1..3 |-> 0]])
     IN [st |-> [s EXCEPT !.events = r.evs,
@@ -256,12 +262,14 @@ DbClearWritten(s) ==
                  !.ovf = IF anyFull THEN @ ELSE FALSE,
                  !.ocb = @ \o cbs]
 
-\* selection for a READ: header tokens [n, lim]: n \in c1 c2 c3 (class events, lim = count limit
-\* or -1) | c0 (class 0 static)
+\* selection for a READ: header tokens [n, lim, v]: n \in c1 c2 c3 (class events, lim = count limit
+\* or -1) | c0 (class 0 static) | bi (binary input events in variation v)
 SelectHeader(s, h) ==
     CASE h.n \in {"c1", "c2", "c3"} ->
               LET c == CASE h.n = "c1" -> 1 [] h.n = "c2" -> 2 [] OTHER -> 3
-              IN [s EXCEPT !.events = DbSelect(@, LAMBDA r : PCls(r.p) = c, h.lim)]
+              IN [s EXCEPT !.events = DbSelect(@, LAMBDA r : PCls(r.p) = c, h.lim, 0)]
+         [] h.n = "bi" ->    \* READ g2 in the explicit variation h.v (h.v = 0: g2v0, the default)
+              [s EXCEPT !.events = DbSelect(@, LAMBDA r : Pts[r.p].ty = "bi", h.lim, h.v)]
          [] h.n = "c0" ->
               LET ps == SelectSeq([i \in 1..NP |-> i], LAMBDA p : Pts[p].ty \in ClassZero)
               IN [s EXCEPT !.selq = @ \o ps,
@@ -531,7 +539,7 @@ CheckUnsol(s) ==
     ELSE
         \* write_unsolicited: reset, select the enabled classes, write events only
         LET s1 == DbReset(s)
-            s2 == [s1 EXCEPT !.events = DbSelect(@, LAMBDA r : PCls(r.p) \in s.enabled, -1)]
+            s2 == [s1 EXCEPT !.events = DbSelect(@, LAMBDA r : PCls(r.p) \in s.enabled, -1, 0)]
             none == ~\E i \in 1..Len(s2.events) : s2.events[i].st = "S"
             w  == DbWriteEvents(s2, UnsolBudget)
         IN IF none \/ w.count = 0
